@@ -181,6 +181,8 @@ def build_world(case):
     crit = make_criterion(crit_name)
     hedger = Hedger(model, inputs, criterion=crit)
     w.hedger, w.derivative, w.hedge, w.stock, w.N, w.T, w.H = hedger, deriv, hedge, stock, N, T, H
+    if hedger.inputs.of(deriv, hedger).is_state_dependent() != stepwise_expected(fm):
+        raise HarnessError(f"C14: feature mode {fm} does not select the intended evaluation mode")
     w.mo_net, w.model, w.criterion = mo_net, model, crit
     params = [("model." + n, p) for n, p in model.named_parameters()]
     if mo_net is not None:
@@ -455,13 +457,14 @@ def run(ctx):
         ctx.run("no_graph", {"cases": ng})
     else:
         ctx.alphabet("path_sets", PATH_SETS)
-        ctx.alphabet("extra_spot_symbol(A3T4)", extra)
+        ctx.alphabet("extra_spot_symbol(A4T3)", extra)
         crits = list(CRITERIA) + ["isoelastic_log"]
         blocks = []
         for ps in PATH_SETS:
-            cs = _cases({"criterion": crits, "fm": list(FMODES), "cost": [0.0, 0.01], "H": [1, 2],
-                         "model": list(MODELS), "paths": [ps]}, wseed, extra=extra if ps == "A4T3" else None)
-            blocks += [{"cases": c} for c in _chunks(cs, 30)]
+            for ws in (wseed, wseed + 1000):     # two generic parameter points per configuration
+                cs = _cases({"criterion": crits, "fm": list(FMODES), "cost": [0.0, 0.01], "H": [1, 2],
+                             "model": list(MODELS), "paths": [ps]}, ws, extra=extra if ps == "A4T3" else None)
+                blocks += [{"cases": c} for c in _chunks(cs, 30)]
         ctx.run_parallel("grad_fd", blocks, workers=min(_workers(), len(blocks)))
         ng = _cases({"criterion": crits, "fm": list(FMODES), "cost": [0.0, 0.01], "H": [1, 2],
                      "model": list(MODELS), "paths": ["A3T4", "A2T6"]}, wseed)
